@@ -1000,8 +1000,33 @@ fn run_cases(rep: &mut Report, cases: &[Case]) -> (usize, u64) {
     (executed, faults)
 }
 
+/// The monitor must be able to see what it claims to see: a one-element read
+/// just past (before) a guarded slice has to kill the child with a signal,
+/// and an in-bounds access must not.
+fn guard_selftest(rep: &mut Report) -> bool {
+    let mut seen = 0u64;
+    for pos in [GuardPos::After, GuardPos::Before] {
+        let g: Guarded<u8> = Guarded::new(100, 7, pos);
+        let p = g.as_slice().as_ptr();
+        let inside = in_child(|| unsafe { (std::ptr::read_volatile(p) + std::ptr::read_volatile(p.add(99))) as i32 });
+        let outside = in_child(|| unsafe {
+            let q = if pos == GuardPos::After { p.add(100) } else { p.sub(1) };
+            std::ptr::read_volatile(q) as i32
+        });
+        if inside == Ok(14) && matches!(outside, Err(s) if s == libc::SIGSEGV || s == libc::SIGBUS) {
+            seen += 1;
+        }
+    }
+    rep.add("guard_selftest_faults_observed", seen);
+    seen == 2
+}
+
 pub fn run(rep: &mut Report, args: &Args, isas: &[IsaKind]) {
     let t0 = std::time::Instant::now();
+    if !guard_selftest(rep) {
+        rep.inconclusive = Some("guard-page self-test failed: an out-of-slice read was not observed as a fault".into());
+        return;
+    }
     let mut cases = enumerate(isas, args.thorough);
     if args.shards > 1 {
         cases = cases.into_iter().enumerate().filter(|(i, _)| i % args.shards == args.shard).map(|(_, c)| c).collect();
